@@ -24,7 +24,7 @@ func VerifC16EnrichPackage(logger *console.Logger, packagePath string, pkg Packa
 
 func init() {
 	Registry["C16"] = func(c *Ctx) {
-		c.R.Rule = "(a) package definitions = 2 base definitions (minimal single target in the root package; rich two-target package p with every field set) x every assignment of <=2 (quick) / <=3 (thorough) of 16 fields (name, command, dependencies, inputs, exclude_inputs, outputs, bin_output, output_checks, tags, fingerprint, platforms, environment_variables, timeout, aliases, default_platforms, extra target) to any value of that field's domain (78 values in total: absent / empty / one / two values / documented forms such as ':x', '//p:y', shorthand '//p', 'src/*.txt', '**/*.txt', 'dir::d', multi-line and quote-laden commands / one invalid value per validated field); each definition is rendered to BUILD.json, BUILD.yaml, BUILD.star and - when it has no package-level parts - as its `make <goal>` twin to BUILD.json + Makefile '# @grog' annotations (goal name = target name, and explicit 'name:' with another goal name), and loaded by the real PackageLoader.LoadIfMatched + getEnrichedPackage in a scratch package containing the files the globs refer to. A definition is non-trivial when it was loaded through at least two formats (the renderings are different texts by construction). (b) six seed files (BUILD.json, BUILD.yaml, BUILD.star, BUILD.star using load(), Makefile with two annotated goals, s.grog.sh with an annotation header) x every single edit: each offset x {delete, replace by / insert each of the 16 bytes # : @ LF { } quote [ , space - ( ) = a NUL}, every truncation, every line deleted / duplicated / swapped with its successor; plus every node of a rich package tree replaced by each of null, [], {}, empty string, 0, true, [null], {a: null} in JSON, YAML and (inside target()/alias() arguments) Starlark; thorough adds every pair of single edits on five tiny seeds (16-26 bytes, one per loader). A corrupted file is non-trivial when it differs from its seed (results identical to the seed are not loaded; identical results are loaded once). (c') LoadPackages + BuildNodeMapFromPackages + BuildGraph (the steps of MustLoadGraphForBuild) on on-disk workspaces of 4 BUILD files (a/BUILD.json + a/BUILD.yaml that must merge, b/BUILD.star, c/Makefile), 5 scenarios (disjoint; duplicate target / alias / alias-vs-target in either file across the two same-directory files) x both creation orders of the two files (raw directory order recorded) x NumWorkers 1,2,3,8 x 5 (quick) / 40 (thorough) repetitions: identical package set for the valid workspace, rejection in every run for the duplicates. Nested packages whose globs reach the same files under different relative names (//p: q/**/*.txt, //p/q: **/*.txt, //p/q/r: *.txt), worker counts 1/2/3/8 x repetitions x three creation orders: every target's resolved inputs are relative to its own package and complete. A workspace of 300 packages with one malformed BUILD file (root BUILD.json, zz/BUILD.json, root BUILD.star), workers 1/2/8: LoadPackages returns an error (no hang, no success). Same-directory BUILD files include the cases in which one of the two files defines aliases only."
+		c.R.Rule = "(a) package definitions = 2 base definitions (minimal single target in the root package; rich two-target package p with every field set) x every assignment of <=2 (quick) / <=3 (thorough) of 16 fields (name, command, dependencies, inputs, exclude_inputs, outputs, bin_output, output_checks, tags, fingerprint, platforms, environment_variables, timeout, aliases, default_platforms, extra target) to any value of that field's domain (78 values in total: absent / empty / one / two values / documented forms such as ':x', '//p:y', shorthand '//p', 'src/*.txt', '**/*.txt', 'dir::d', multi-line and quote-laden commands / one invalid value per validated field); each definition is rendered to BUILD.json, BUILD.yaml, BUILD.star and - when it has no package-level parts - as its `make <goal>` twin to BUILD.json + Makefile '# @grog' annotations (goal name = target name, and explicit 'name:' with another goal name; each with a bare rule line 'goal:', with prerequisites 'goal: lib.o main.c' and with order-only prerequisites 'goal: | gen_dir'), and loaded by the real PackageLoader.LoadIfMatched + getEnrichedPackage in a scratch package containing the files the globs refer to. A definition is non-trivial when it was loaded through at least two formats (the renderings are different texts by construction). (b) six seed files (BUILD.json, BUILD.yaml, BUILD.star, BUILD.star using load(), Makefile with two annotated goals, s.grog.sh with an annotation header) x every single edit: each offset x {delete, replace by / insert each of the 16 bytes # : @ LF { } quote [ , space - ( ) = a NUL}, every truncation, every line deleted / duplicated / swapped with its successor; plus every node of a rich package tree replaced by each of null, [], {}, empty string, 0, true, [null], {a: null} in JSON, YAML and (inside target()/alias() arguments) Starlark; thorough adds every pair of single edits on five tiny seeds (16-26 bytes, one per loader). A corrupted file is non-trivial when it differs from its seed (results identical to the seed are not loaded; identical results are loaded once). (c') LoadPackages + BuildNodeMapFromPackages + BuildGraph (the steps of MustLoadGraphForBuild) on on-disk workspaces of 4 BUILD files (a/BUILD.json + a/BUILD.yaml that must merge, b/BUILD.star, c/Makefile), 5 scenarios (disjoint; duplicate target / alias / alias-vs-target in either file across the two same-directory files) x both creation orders of the two files (raw directory order recorded) x NumWorkers 1,2,3,8 x 5 (quick) / 40 (thorough) repetitions: identical package set for the valid workspace, rejection in every run for the duplicates. Nested packages whose globs reach the same files under different relative names (//p: q/**/*.txt, //p/q: **/*.txt, //p/q/r: *.txt), worker counts 1/2/3/8 x repetitions x three creation orders: every target's resolved inputs are relative to its own package and complete. A workspace of 300 packages with one malformed BUILD file (root BUILD.json, zz/BUILD.json, root BUILD.star), workers 1/2/8: LoadPackages returns an error (no hang, no success). Same-directory BUILD files include the cases in which one of the two files defines aliases only."
 		c.R.Assume(
 			"Pkl loader excluded: it needs the external `pkl` binary, which is not installed",
 			"JSON is the reference rendering; YAML/Starlark/Makefile results are compared against it field by field (labels, command, resolved inputs as a set, outputs, bin output, dependencies, tags, fingerprint, platforms, timeout, output checks, environment, aliases); SourceFilePath ignored; nil and empty collections are the same value",
